@@ -119,11 +119,20 @@ class Counters(EngineBase):
         present_d = set(disknames)
         ops = []
         nsteps = rng.randrange(4, 25 if tier == "quick" else 45)
+        # interface churn (container host): short-lived veth pairs come and
+        # go, far more names over time than at any one moment
+        churn = rng.random() < 0.05
+        if churn:
+            nsteps = max(nsteps, 16)
+        nforks = 0
         wrap_rate = rng.choice([0.02, 0.1, 0.3])
         gone_rate = rng.choice([0.0, 0.05, 0.15])
         allgone_rate = rng.choice([0.0, 0.0, 0.08])
         reset_rate = rng.choice([0.0, 0.0, 0.05, 0.15])
         reorder_rate = rng.choice([0.0, 0.0, 0.2, 0.5])
+        if churn:
+            # the long-lived interfaces keep wrapping meanwhile and stay
+            wrap_rate, gone_rate, allgone_rate = 0.3, 0.0, 0.0
         for i in range(nsteps):
             for table, present, names in ((net, present_n, netnames),
                                           (disk, present_d, disknames)):
@@ -169,7 +178,15 @@ class Counters(EngineBase):
             ops.append({"op": "ev", "ev": {
                 "ev": "net_set",
                 "table": [[n, list(net[n])] for n in netnames
-                          if n in present_n]}})
+                          if n in present_n] + ([
+                              ["veth%03d" % ((i * 20 + q) % 900),
+                               [q + 1] * 16] for q in range(120)]
+                              if churn else [])}})
+            if rng.random() < 0.02:
+                # the program fork()s and goes on in the child
+                nforks += 1
+                ops.append({"op": "ev", "ev": {"ev": "fork_self",
+                                               "pid": 1000 + nforks}})
             ops.append({"op": "ev", "ev": {
                 "ev": "disk_set",
                 "table": [{"major": 8, "minor": k_, "name": d,
